@@ -9,6 +9,8 @@ def T(id, old, new, prop="C11", file="eqsig/fns/peaks_and_crossings.py", **kw):
 MIN = "    if ptype == 'min':\n        if values[peak_full_indices[1]] - values[peak_full_indices[0]] <= 0:\n            return peak_full_indices[1::2]\n        else:\n            return peak_full_indices[::2]\n"
 MAX = "    elif ptype == 'max':\n        if values[peak_full_indices[1]] - values[peak_full_indices[0]] > 0:\n            return peak_full_indices[1::2]\n        else:\n            return peak_full_indices[::2]\n"
 VARIANTS = [
+    B("peaks-no-float-cast", "    values = np.array(values, dtype=float)\n    # remove all non-changing values\n    cleaned_values, non_zero_indices = clean_out_non_changing(values)\n    # cleaned_values *=", "    values = np.array(values)\n    # remove all non-changing values\n    cleaned_values, non_zero_indices = clean_out_non_changing(values)\n    # cleaned_values *=", "R-IDX"),
+    T("peaks-float-cast-other-spelling", "    values = np.array(values, dtype=float)\n    # remove all non-changing values\n    cleaned_values, non_zero_indices = clean_out_non_changing(values)\n    # cleaned_values *=", "    values = np.array(values).astype(np.float64)\n    # remove all non-changing values\n    cleaned_values, non_zero_indices = clean_out_non_changing(values)\n    # cleaned_values *=", ),
     B("direction-regression", MAX, MAX.replace("values[peak_full_indices[1]] - values[peak_full_indices[0]] > 0", "values[1] - values[0] > 0"), "R-CLEANED"),
     B("min-test-strict", MIN, MIN.replace("<= 0", "< 0"), "R-PARTITION"),
     B("max-strides-swapped", MAX, MAX.replace("[1::2]", "[XX]").replace("[::2]", "[1::2]").replace("[XX]", "[::2]"), "R-PARTITION"),
